@@ -254,6 +254,17 @@ func (a *vzAdv) honestVote() bool {
 	for _, ph := range a.phs {
 		targets = append(targets, string(ph.Header.Hash))
 	}
+	if kind == 1 {
+		// Honest validators respect their locks: they precommit a block only when it has a prevote
+		// quorum, and two blocks cannot have one in the same round. So the puppets precommit either the
+		// planned block of a commit round or nil - never another block, and no block at all in rounds
+		// that are planned to fail (a block precommitted there would, together with the node's own vote,
+		// be a commit the puppets then walk away from).
+		targets = []string{""}
+		if a.plan == 1 {
+			targets = append(targets, string(a.phs[0].Header.Hash))
+		}
+	}
 	// the round's plan decides where the quorum goes; a dissenting vote is allowed
 	// only while the remaining puppets can still complete the planned quorum
 	want := ""
